@@ -1262,10 +1262,35 @@ func (g *gen) loop3() {
 		// still terminates): the post statement and the condition must see the assignment (F24, repaired by 8ca6eff)
 		g.f("loopvar-assigned-in-body")
 		k, d := g.r.Intn(n+1), g.r.Intn(3)
+		// … and half of the time the iteration is then left by a labelled continue out of a nested loop or
+		// switch: the update must still reach the post statement (round-3 seed C01-3)
+		leave := g.r.Intn(2) == 0 && !g.off("labeled-continue")
+		if leave {
+			g.usedLbl[lbl] = true
+			g.f("loopvar-assigned-then-labeled-continue")
+		}
+		nested := g.r.Intn(2)
 		pre = func() {
 			g.line("if %s == %d {", i, k)
 			g.line("\t%s %s %d", i, step, d)
 			g.line("}")
+			if leave {
+				j := g.fresh("lj")
+				if nested == 0 {
+					g.line("for %s := 0; %s < 2; %s++ {", j, j, j)
+					g.line("\tif %s == 1 && %s %% 2 == 0 {", j, i)
+					g.line("\t\tcontinue %s", lbl)
+					g.line("\t}")
+					g.line("\tfmt.Println(%q, %s, %s)", j, i, j)
+					g.line("}")
+				} else {
+					g.line("switch {")
+					g.line("case %s %% 3 == 0:", i)
+					g.line("\tfmt.Println(%q, %s)", j, i)
+					g.line("\tcontinue %s", lbl)
+					g.line("}")
+				}
+			}
 		}
 	}
 	body := g.loopBody(lbl, pre, 1+g.r.Intn(4))
